@@ -144,7 +144,7 @@ fn gen_c15(seed: u64, idx: usize, _tier: Tier) -> C15Scenario {
                     OutStep { fd, hex: hex(&b), pause_ms: 0, close: false }
                 })
                 .collect();
-            Behav { command: c.command.clone(), target: c.target.clone(), outs, code: 0, exit_pause_ms: 0 }
+            Behav { command: c.command.clone(), target: c.target.clone(), outs, code: 0, exit_pause_ms: 0, early_exit: false, hold_pipes_ms: 0 }
         })
         .collect();
     if rng.chance(1, 4) && !behav.is_empty() {
@@ -504,7 +504,7 @@ fn gen_c20(seed: u64, idx: usize, tier: Tier) -> C20Scenario {
                 OutStep { fd, hex: hex(s.as_bytes()), pause_ms: 0, close: false }
             })
             .collect();
-        script.behav.push(Behav { command: cf.command.clone(), target: cf.target.clone(), outs, code: 0, exit_pause_ms: 0 });
+        script.behav.push(Behav { command: cf.command.clone(), target: cf.target.clone(), outs, code: 0, exit_pause_ms: 0, early_exit: false, hold_pipes_ms: 0 });
     }
     script.strategy = Strategy::Uniform;
     script.sched_seed = rng.next_u64();
